@@ -61,7 +61,9 @@ VARIABLES l, kind, s, seq, viol, devs, stats
 
 Has(r, f) == f \in DOMAIN r
 IsPanic(e) == Has(e.res, "outcome")
-FilesOf(q) == [i \in {q[k][1] : k \in DOMAIN q} |-> q[CHOOSE k \in DOMAIN q : q[k][1] = i][2]]
+\* the listing [[index, length], ..] as a function (fast path: indices 0..n-1 in order, e.g. 1023 files)
+FilesOf(q) == IF \A k \in DOMAIN q : q[k][1] = k - 1 THEN [i \in 0..(Len(q) - 1) |-> q[i + 1][2]]
+              ELSE [i \in {q[k][1] : k \in DOMAIN q} |-> q[CHOOSE k \in DOMAIN q : q[k][1] = i][2]]
 HeadsOf(q) == [i \in {q[k].i : k \in DOMAIN q} |-> q[CHOOSE k \in DOMAIN q : q[k].i = i].keys]
 ObsA(e) == [count |-> e.obs.count, segs |-> e.obs.segs, beyond |-> e.obs.beyond]
 
